@@ -264,6 +264,7 @@ func runWorker(cmd *exec.Cmd, timeout time.Duration) workerRun {
 type agg struct {
 	mu         sync.Mutex
 	results    int
+	evals      int
 	outcomes   map[string]int
 	fired      map[string]int
 	probes     map[string]int
@@ -292,6 +293,11 @@ func (a *agg) add(r *Result) {
 	a.mu.Lock()
 	defer a.mu.Unlock()
 	a.results++
+	if r.Evals > 1 {
+		a.evals += r.Evals
+	} else {
+		a.evals++
+	}
 	a.outcomes[r.Outcome]++
 	for k, v := range r.Fired {
 		a.fired[k] += v
@@ -723,7 +729,8 @@ func writeEvidence(prop *Prop, tier string, base uint64, a *agg, wall float64, v
 		samples = []any{map[string]any{"note": "no sample recorded"}}
 	}
 	cov := map[string]any{
-		"evaluations":          a.results,
+		"evaluations":          a.evals,
+		"cases":                a.results,
 		"distinct_nontrivial":  dn,
 		"rule":                 prop.Rule,
 		"samples":              samples,
